@@ -35,9 +35,11 @@ def apply_contract(fn_text, c, log=None):
         spec += '\n    ensures\n' + ''.join(f'        {e},\n' for e in c.ensures)
     if c.decreases:
         spec += f'\n    decreases {c.decreases},\n'
-    for (rx, repl, desc) in c.rewrites:
+    for rw in c.rewrites:
+        rx, repl, desc = rw[0], rw[1], rw[2]
         body, n = re.subn(rx, repl, body)
         if n == 0:
+            if len(rw) > 3 and rw[3] == 'optional': continue
             raise AnchorLost(f'rewrite anchor lost: {desc}')
         if log is not None: log.append(f'{desc} (x{n})')
     for (anchor, where, text) in c.inserts:
